@@ -7,7 +7,7 @@ differ from the reviewed text gets the thorough-tier exploration even when the q
 for (the model may no longer describe that code, so the correspondence is searched deeper).
 Drift never raises an alarm by itself.
 """
-import hashlib, json, os, subprocess, sys
+import hashlib, json, os, re, subprocess, sys
 V = os.path.dirname(os.path.dirname(os.path.abspath(__file__)))
 
 
@@ -81,12 +81,117 @@ def drift(prop):
     return sorted(f for f in set(m) | set(cur) if group(f) in gs and m.get(f) != cur.get(f))
 
 
+
+# ---- literals (for the generators' dictionary) -------------------------------------------------------------
+
+def strip_tests_and_comments(src):
+    """non-test code with comments removed (string literals kept)"""
+    out = []
+    i, n = 0, len(src)
+    while i < n:
+        c = src[i]
+        if c == '"':
+            j = i + 1
+            while j < n and src[j] != '"':
+                j += 2 if src[j] == "\\" else 1
+            out.append(src[i:j + 1]); i = j + 1
+        elif src.startswith("//", i):
+            j = src.find("\n", i); i = n if j < 0 else j
+        elif src.startswith("/*", i):
+            j = src.find("*/", i + 2); i = n if j < 0 else j + 2
+        else:
+            out.append(c); i += 1
+    text = "".join(out)
+    m = re.search(r"#\[cfg\(test\)\]", text)
+    return text[:m.start()] if m else text
+
+
+def unescape(s):
+    out = bytearray()
+    i = 0
+    while i < len(s):
+        if s[i] == "\\" and i + 1 < len(s):
+            e = s[i + 1]
+            if e == "x" and i + 3 < len(s):
+                try:
+                    out.append(int(s[i + 2:i + 4], 16)); i += 4; continue
+                except ValueError:
+                    pass
+            out.append({"n": 10, "r": 13, "t": 9, "0": 0, "\\": 92, '"': 34, "'": 39}.get(e, ord(e) & 0xff)); i += 2
+        else:
+            out.extend(s[i].encode("utf-8")); i += 1
+    return bytes(out)
+
+
+def literals_of(text):
+    """(set of ints, set of byte strings as hex) occurring as literals in `text`"""
+    ints, bts = set(), set()
+    for m in re.finditer(r'b?"((?:[^"\\]|\\.)*)"', text):
+        b = unescape(m.group(1))
+        if 2 <= len(b) <= 40:
+            bts.add(b.hex())
+    num = r"(?:0x[0-9a-fA-F_]+|\d[\d_]*)(?:_?(?:u8|u16|u32|u64|usize|i8|i16|i32|i64|isize))?"
+    def val(t):
+        t = re.sub(r"_?(?:u8|u16|u32|u64|usize|i8|i16|i32|i64|isize)$", "", t).replace("_", "")
+        try:
+            return int(t, 16) if t.startswith("0x") else int(t)
+        except ValueError:
+            return None
+    for m in re.finditer(r"\[((?:\s*%s\s*,)+\s*%s\s*,?\s*)\]" % (num, num), text):
+        vs = [val(t.strip()) for t in m.group(1).split(",") if t.strip()]
+        if len(vs) >= 2 and all(v is not None and 0 <= v <= 255 for v in vs):
+            bts.add(bytes(vs).hex())
+    # hex byte sequences inside patterns / arrays that also hold non-literals (`[0x72, 0x63, rest @ ..]`)
+    for m in re.finditer(r"(?:0x[0-9a-fA-F]{1,2}(?:u8)?\s*,\s*)+0x[0-9a-fA-F]{1,2}(?:u8)?", text):
+        vs = [val(t.strip()) for t in m.group(0).split(",")]
+        if len(vs) >= 2 and all(v is not None and 0 <= v <= 255 for v in vs):
+            bts.add(bytes(vs).hex())
+    for m in re.finditer(r"(?<![\w.])(%s)(?![\w.])" % num, text):
+        v = val(m.group(1))
+        if v is not None:
+            ints.add(v)
+    for name, v in (("u8::MAX", 255), ("i8::MAX", 127), ("u16::MAX", 65535), ("i16::MAX", 32767), ("u32::MAX", 2**32 - 1)):
+        if name in text:
+            ints.add(v)
+    for m in re.finditer(r"\b1\s*<<\s*(\d+)", text):
+        ints.add(1 << int(m.group(1)))
+    return ints, bts
+
+
+def current_literals(root="/repo"):
+    ints, bts = set(), set()
+    for f in source_files(root):
+        try:
+            t = strip_tests_and_comments(open(os.path.join(root, f), encoding="utf-8", errors="replace").read())
+        except OSError:
+            continue
+        a, b = literals_of(t)
+        ints |= a; bts |= b
+    return ints, bts
+
+
+def new_literals():
+    """literals of the working tree that the reviewed text did not contain: (ints, hex byte strings)"""
+    try:
+        base = json.load(open(os.path.join(V, "srcmap.json"))).get("literals")
+    except Exception:
+        base = None
+    if not base:
+        return [], []
+    ints, bts = current_literals()
+    ni = sorted(i for i in ints - set(base["ints"]) if 2 <= i <= 300000)
+    nb = sorted(bts - set(base["bytes"]))
+    return ni, nb
+
+
 def main():
     head = subprocess.run(["git", "-C", "/repo", "rev-parse", "HEAD"], capture_output=True, text=True).stdout.strip()
     dirty = subprocess.run(["git", "-C", "/repo", "status", "--porcelain"], capture_output=True, text=True).stdout.strip()
     if dirty:
         print("refusing: /repo is not clean"); return 2
-    m = {"reviewed_commit": head, "files": {f: file_hash(os.path.join("/repo", f)) for f in source_files()}}
+    ints, bts = current_literals()
+    m = {"reviewed_commit": head, "files": {f: file_hash(os.path.join("/repo", f)) for f in source_files()},
+         "literals": {"ints": sorted(ints), "bytes": sorted(bts)}}
     json.dump(m, open(os.path.join(V, "srcmap.json"), "w"), indent=1)
     print("srcmap.json:", len(m["files"]), "files at", head[:7])
     return 0
